@@ -174,8 +174,11 @@ func runC13(c *Ctx) {
 							okRHS = true
 						}
 					}
-					if id, isID := rhs.(*ast.Ident); isID && id.Name == "lookback" {
-						okRHS = true // whole range in one slice
+					if id, isID := rhs.(*ast.Ident); isID {
+						// whole range in one slice: the value of params.Dur()
+						if definedByMethod(info, rq.Decl.Body, info.Uses[id], "Dur") {
+							okRHS = true
+						}
 					}
 					if !okRHS {
 						bad = exprStr(as)
@@ -276,8 +279,9 @@ func runC13(c *Ctx) {
 			if o == nil {
 				return false
 			}
-			_, isParam := o.(*types.Var)
-			return isParam && o.Name() != "source"
+			_, isVar := o.(*types.Var)
+			// not the untouched input (the function's first parameter)
+			return isVar && o != paramObj(mr, 0)
 		})
 		ok := len(rets) >= 1
 		for _, r := range rets {
@@ -332,4 +336,26 @@ func enclosingLit(root ast.Node, n ast.Node) (*ast.FuncLit, bool) {
 		return true
 	})
 	return found, found != nil
+}
+
+// definedByMethod: obj is defined in body by `obj := x.<method>()`.
+func definedByMethod(info *types.Info, body ast.Node, obj types.Object, method string) bool {
+	found := false
+	ast.Inspect(body, func(n ast.Node) bool {
+		as, ok := n.(*ast.AssignStmt)
+		if !ok || len(as.Lhs) != 1 || len(as.Rhs) != 1 || obj == nil {
+			return true
+		}
+		id, ok := as.Lhs[0].(*ast.Ident)
+		if !ok || (info.Defs[id] != obj && info.Uses[id] != obj) {
+			return true
+		}
+		if call, ok := ast.Unparen(as.Rhs[0]).(*ast.CallExpr); ok {
+			if sel, ok := call.Fun.(*ast.SelectorExpr); ok && sel.Sel.Name == method {
+				found = true
+			}
+		}
+		return true
+	})
+	return found
 }
